@@ -45,8 +45,12 @@ class Drv:
         if kind == "none":
             return None
         if kind == "m31":
+            if rnd.random() < 0.15:
+                return np.zeros((3, 1))                             # a known-exactly point: zero variances are a legal PSD input
             return np.array([[rnd.choice([4e-4, 1e-6, 2.5e-3])], [rnd.choice([9e-4, 1e-6])], [rnd.choice([1.6e-3, 4e-6])]])
-        c = rnd.randrange(3)
+        c = rnd.randrange(4)
+        if c == 3:
+            return np.zeros((3, 3))
         if c == 0:
             v = np.array([[rnd.randint(-9, 9)], [rnd.randint(-9, 9)], [rnd.randint(1, 9)]], dtype=float)
             return (v @ v.T) * 1e-6                               # rank 1
@@ -154,7 +158,7 @@ def cases(drv, rnd, quick):
     # points within 2 m of a zone boundary (the natural zone changes legitimately)
     for zone in (50, 55):
         for lat in (-30.0, -12.0):
-            for off in (-1.5, 1.5):
+            for off in (-1.5, 1.5, -0.15, 0.15, -0.6, 0.6, -0.02, 0.02):
                 h, z, e, n, _, _ = cv.geo2grid(lat, zone * 6 - 180 + off / 96000.0, zone)
                 out.append((zone, e, n))
     return out
